@@ -53,8 +53,9 @@ PROBE = r'''import sys, os, json
 REC = %(rec)r
 ctl = %(ctl)r
 data = sys.stdin.buffer.read()
+import re
 for a in sys.argv[1:]:
-    if a.startswith('--x='):
+    if re.fullmatch(r'--x=[0-9]+,[0-9]+,[0-9]+', a):  # only a complete control word: an argument that merely begins so is data
         ctl = a[4:]
         break
 code, o, e = (ctl.split(',') + ['0', '0'])[:3]
@@ -372,7 +373,7 @@ class Gen:
             return int(m.group(1)) if m else 0
         for a in p[2]:
             if a[0] == 'str':
-                m = re.match(r'--x=(\d+),', frags_inner(a[1]))
+                m = re.fullmatch(r'--x=(\d+),\d+,\d+', frags_inner(a[1]))
                 if m:
                     return int(m.group(1))
         return 0
@@ -733,7 +734,7 @@ def predict_act(case):
     if act[0] == 'file':
         ctl = None
         for a in act[4]:
-            if a[0] == 'str' and frags_inner(a[1]).startswith('--x='):
+            if a[0] == 'str' and re.fullmatch(r'--x=\d+,\d+,\d+', frags_inner(a[1])):
                 ctl = frags_inner(a[1])[4:]
                 break
         c, o, e = [int(x) for x in ctl.split(',')]
@@ -745,7 +746,7 @@ def predict_act(case):
         m = None
         for a in p[2]:
             if a[0] == 'str':
-                m = re.match(r'--x=(\d+),(\d+),(\d+)', frags_inner(a[1]))
+                m = re.fullmatch(r'--x=(\d+),(\d+),(\d+)', frags_inner(a[1]))
                 if m:
                     break
     if not m:
